@@ -254,6 +254,21 @@ def run_shard(idx, keys, base, events, mm_keys=(), script=None):
         if rc == 0:
             return
         bad = last_begun(prog)
+        if rc == 124 and bad is not None and bad in keys:
+            # The worker ran out of time.  On a loaded machine that is not evidence of a hang: re-run the entry point that
+            # was in progress ALONE with the same limit (one entry point takes seconds).  Only if that does not return
+            # either is it reported as a hang; otherwise the shard simply continues from that entry point in a new worker.
+            top = os.path.join(WD, "hangtriage%d_%d.json" % (idx, round_))
+            json.dump(dict(base, keys=[bad], progress=None, safe_keys=safe, mm_keys=[]), open(top, "w"))
+            rc3, so3, se3 = harness(["run", top, os.path.join(WD, "hangtriage%d_%d.jsonl" % (idx, round_))], timeout=base["worker_timeout"], script=script)
+            rest = keys[keys.index(bad) + 1:]
+            if rc3 == 124:
+                events.append({"hang": bad, "shard": idx, "stderr": "[entry point alone: timeout after %ss]" % base["worker_timeout"]})
+                keys = rest
+            else:
+                events.append({"slow_shard": idx, "resumed_at": bad})
+                keys = [bad] + rest
+            continue
         events.append({"shard": idx, "rc": rc, "entry": bad, "stderr": se[-1500:]})
         if bad is not None and bad not in keys and bad in mm:
             # died in the length-mismatch-only part: guarded re-run of that entry point, then go on
